@@ -131,6 +131,7 @@ def get_constants(filename):
     constants = Constants(False)
     with open(filename) as f:
         data = json.load(f)
+    rp = data.get('rp', None)
     unmatched = {}
     n = len(data)
     while (len(data) > 0):
@@ -148,6 +149,10 @@ def get_constants(filename):
         data, unmatched = unmatched, data
         assert len(data) < n
         n = len(data)
+    # Setting rMin or rMax resets rp. If the file provides rp this value
+    # must be kept whatever the order in which the keys were treated
+    if (rp is not None):
+        constants.rp = eval_expr(rp, constants) if isinstance(rp, str) else rp
     constants.set_defaults()
     if (constants.CN0 is None):
         constants.getCN0()
